@@ -43,6 +43,41 @@ func c06(c *Ctx) {
 	// the property is stated per connection, a process runs several: nothing the exchange touches is shared between
 	// them (a package-level generator, cache or scratch object is raced by two overlapping exchanges - math/rand.Rand
 	// panics with an index out of range when that happens)
+	// the specification sends server_time so that the client may correct its clock; it asks nothing of the client's
+	// clock.  A refusal whose condition depends on the local clock or on server_time makes the outcome of the
+	// exchange depend on the skew between two machines
+	r.Rule("R06.C", "no branch of makeAuthKey that leads to an error exit has the local clock (time.Now) or server_DH_inner_data.server_time among the dependencies of its condition", 1)
+	if f := c.fn("R06.C", load.RootMod, "*MTProto", "makeAuthKey"); f != nil {
+		n, bad := 0, 0
+		for _, i := range an.Ifs(f) {
+			// does one of the two edges lead straight to a block that returns a non-nil error?
+			errExit := false
+			for _, sc := range i.Block().Succs {
+				for _, in := range sc.Instrs {
+					if ret, ok := an.AsReturn(in); ok && len(ret.Results) == 1 && !an.IsNilConst(an.RetVal(ret, 0)) {
+						errExit = true
+					}
+				}
+			}
+			if !errExit {
+				continue
+			}
+			n++
+			// the condition's own operands (callees are not descended: the requests carry clock-derived message ids,
+			// and every reply "depends" on its request)
+			d := an.NewDeps(func(*ssa.Function) bool { return false }).Of(i.Cond)
+			for _, root := range an.SortedKeys(d.Roots) {
+				if strings.Contains(root, "time.Now") || strings.Contains(root, "time.Since") || strings.Contains(root, "objects.ServerDHInnerData.ServerTime") {
+					bad++
+					r.Violate("R06.C", sprintf("refusal-depends-on-the-clock#%d", bad), c.pos(i.Cond.Pos()), "the condition of this refusal depends on "+root+": a conformant server whose clock differs from the client's is refused")
+					break
+				}
+			}
+		}
+		if bad == 0 {
+			r.Hold("R06.C", "refusal-depends-on-the-clock:none", c.pos(f.Pos()), sprintf("%d refusing branches in makeAuthKey, none depends on a clock", n))
+		}
+	}
 	r.Rule("R06.Z", "nothing reachable from makeAuthKey writes a package-level variable, its storage, or calls a receiver-changing method on an object a package variable points to (= R07.S filed under C06)", 1)
 	if f := c.fn("R06.Z", load.RootMod, "*MTProto", "makeAuthKey"); f != nil {
 		c.noGlobalWrites("R06.Z", []*ssa.Function{f}, "the key exchange: two connections of one process would share it")
